@@ -470,7 +470,7 @@ func trunc(s string, n int) string {
 }
 
 var valuePool = []string{"plain", "two words", "tab\there", "it's", "'quoted'", "$HOME", "${X}", "$$", "a#b", "#lead", "x\ry", "", "a.b*c+d?", "[a-z]{2}|(x)", `back\slash`, "\xff\xfe", "é日本", "a=b=c", "  lead and trail  ", "^anchor$"}
-var namePool = []string{"VAR", "FOO", "X_1", "HOME", "lower", "A"}
+var namePool = []string{"VAR", "FOO", "X_1", "HOME", "lower", "A", "VAR_X", "FOOBAR", "HOME_DIR", "A_B", "X_10", "VA"}
 var wideNames = []string{"a.b", "x-y", "1x", "é", "a:b"}
 
 func genValue(t *rapid.T, label string) []byte {
